@@ -8,3 +8,4 @@ ASSUMPTIONS = ["A-LIB: TensorFlow graph tracing / XLA compilation are trusted on
 
 from vt.contracts import iface_amp  # noqa: F401,E402
 from vt.contracts import amp_assembly, einsum_sym, selection_alias  # noqa: F401,E402
+from vt.contracts import derivs  # noqa: F401,E402  (cached_int likelihood == default formula incl. clip_log; gradient / Hessian)
